@@ -92,9 +92,12 @@ def find_fn(src, clean, name, scope=(0, None), nth=0):
     raise LostAnchor('function `%s` not found' % name)
 
 
-def find_impls(clean, header_re):
+def find_impls(clean, header):
+    """spans of `impl <header> {` blocks; header is literal text (whitespace-insensitive), e.g.
+    "i256", "Ord for i256", "<T: ArrowNativeType> ScalarBuffer<T>" """
+    pat = r'\bimpl\s*' + r'\s*'.join(re.escape(t) for t in header.split()) + r'\s*(where[^{;]*)?\{'
     spans = []
-    for m in re.finditer(r'\bimpl\b[^{;]*?' + header_re + r'[^{;]*\{', clean):
+    for m in re.finditer(pat, clean):
         bo = m.end() - 1
         spans.append((bo, match_brace(clean, bo)))
     return spans
